@@ -6,6 +6,7 @@ CONSTANTS
   OptLen = 0
   MaxCodons = 0
   PairCodons = 0
+  OrfFamily = FALSE
   LongLens = {}
   SymLen = 0
   MaxHist = 2
